@@ -749,7 +749,8 @@ class Flow:
         return out
 
     # ---- main loop
-    def run(self):
+    def run(self, from_edge=None):
+        """from_edge = (branch inst, truth): start on that edge with what taking it implies, instead of at the entry"""
         fn = self.fn
         self._prep()
         hooks = self.hooks
@@ -758,6 +759,12 @@ class Flow:
         merged = {}  # (block, prop) -> facts dict (joined)
         # a decision cell may be evaluated from a block in the middle of the function: values defined before it are simply unknown
         work = [(getattr(hooks, "start_block", 0) or 0, hooks.init_prop(), entry_facts, None)]
+        if from_edge is not None:
+            br, truth = from_edge
+            f0 = self.assume(entry_facts, br["cond"], truth)
+            work = []
+            if f0 is not False:
+                self._edge(br.block, br["t"] if truth else br["f"], hooks.init_prop(), f0, None, work)
         while work:
             blk, prop, facts, trace = work.pop()
             self.steps += 1
